@@ -1103,9 +1103,349 @@ pub fn adv_world(r: &mut Rng, tier: Tier, o: &AdvOpts) -> (WorldCfg, OracleCfg, 
     (world, OracleCfg::default(), faults)
 }
 
+
+// ------------------------------------------------------------------------------------------
+// engine *rx*
+
+fn random_frame(r: &mut Rng) -> crate::wire::Frame {
+    use crate::wire::{self, Frame};
+    match r.below(12) {
+        0 | 1 => Frame::Token { da: r.below(128) as u8, sa: r.below(128) as u8 },
+        2 => Frame::Sc,
+        _ => {
+            let dsap = if r.chance(1, 2) { Some(r.byte()) } else { None };
+            let ssap = if r.chance(1, 2) { Some(r.byte()) } else { None };
+            let saps = usize::from(dsap.is_some()) + usize::from(ssap.is_some());
+            // length byte 3..=249 overall; weighted to SD1 / SD3 / the extremes
+            let max_pdu = 246 - saps;
+            let n = match r.below(8) {
+                0 => 0,
+                1 => 8usize.saturating_sub(saps),
+                2 => max_pdu,
+                3 => max_pdu - 1,
+                4 => 1,
+                _ => r.range(0, 40) as usize,
+            };
+            let fc = if r.chance(1, 2) {
+                let req = *r.pick(&[0u8, 3, 4, 5, 6, 7, 9, 12, 13, 14, 15, 0x80]);
+                wire::fc_request(r.chance(1, 2), r.chance(1, 2), req)
+            } else {
+                wire::fc_response(r.below(4) as u8, *r.pick(&[0u8, 1, 2, 3, 8, 9, 10, 12, 13]))
+            };
+            Frame::Data { da: r.below(128) as u8, sa: r.below(128) as u8, dsap, ssap, fc, pdu: r.bytes(n) }
+        }
+    }
+}
+
+pub fn rx_scenario(r: &mut Rng, tier: Tier, decoder: bool) -> crate::rx::RxCfg {
+    use crate::rx::{ChunkMode, RxCfg, RxItem};
+    use crate::wire;
+    let baud = pick_baud(r);
+    let char_us = (11_000_000u64).div_ceil(baud).max(1);
+    let n_items = if decoder { r.range(1, 6) } else { r.range(1, 12) } as usize;
+    let simulator_phy = !decoder && r.chance(1, 3);
+    let with_damage = decoder || (!simulator_phy && r.chance(1, 4));
+    let mut items = Vec::new();
+    for k in 0..n_items {
+        let f = random_frame(r);
+        // also the non-canonical but valid SD2 forms of frames that fit SD1 / SD3
+        let good = if r.chance(1, 6) { wire::encode_sd2_forced(&f) } else { wire::encode(&f) };
+        let mut bytes = good.clone();
+        let mut original = None;
+        let mut damage = String::new();
+        let kind = if with_damage { r.below(if decoder { 10 } else { 8 }) } else { 99 };
+        match kind {
+            0 | 1 => {
+                // single bit error at a position class
+                let i = pick_pos(r, &bytes);
+                bytes[i] ^= 1 << r.below(8);
+                original = Some(good.clone());
+                damage = "bitflip".into();
+            }
+            2 => {
+                // byte substitution, biased to the special bytes
+                let i = pick_pos(r, &bytes);
+                let v = *r.pick(&[0x10u8, 0x68, 0xA2, 0xDC, 0xE5, 0x16, 0x00, 0xFF, 0x80]);
+                let v = if r.chance(1, 2) { v } else { r.byte() };
+                if bytes[i] != v {
+                    bytes[i] = v;
+                    original = Some(good.clone());
+                    damage = "byte_subst".into();
+                }
+            }
+            3 if decoder => {
+                let keep = r.below(bytes.len() as u64) as usize;
+                bytes.truncate(keep.max(1));
+                damage = "truncate".into();
+            }
+            4 if decoder => {
+                let n = r.range(1, 20) as usize;
+                bytes = r.bytes(n);
+                if r.chance(1, 2) {
+                    bytes[0] = *r.pick(&[0x10u8, 0x68, 0xA2, 0xDC, 0xE5]);
+                }
+                damage = "noise".into();
+            }
+            5 if decoder => {
+                // structured header with random body: 68 LE LEr 68 ...
+                let le = r.range(0, 30) as u8;
+                let ler = if r.chance(3, 4) { le } else { r.byte() };
+                let mut b = vec![0x68, le, ler, if r.chance(3, 4) { 0x68 } else { r.byte() }];
+                b.extend(r.bytes(usize::from(le) + 2));
+                if r.chance(1, 2) && b.len() > 6 {
+                    let l = b.len();
+                    let fcs = b[4..l - 2].iter().fold(0u8, |a, x| a.wrapping_add(*x));
+                    b[l - 2] = fcs;
+                    b[l - 1] = 0x16;
+                }
+                bytes = b;
+                damage = "structured".into();
+            }
+            6 if decoder => {
+                // two telegrams back to back
+                let g = wire::encode(&random_frame(r));
+                bytes.extend(g);
+                damage = "concat".into();
+            }
+            7 if decoder => {
+                // two single-bit errors
+                for _ in 0..2 {
+                    let i = pick_pos(r, &bytes);
+                    bytes[i] ^= 1 << r.below(8);
+                }
+                damage = "bitflip2".into();
+            }
+            _ => {}
+        }
+        // C16 damaged items must be rejected as a whole (so that they are discarded, not waited for)
+        if !decoder && !damage.is_empty() && !matches!(wire::decode(&bytes), wire::Dec::Bad) {
+            bytes = good.clone();
+            original = None;
+            damage.clear();
+        }
+        let separate = decoder || !damage.is_empty() || items.last().map(|i: &RxItem| !i.damage.is_empty()).unwrap_or(false);
+        let gap_bits = if separate {
+            r.range(400, 3000) as u32
+        } else if simulator_phy {
+            r.range(33, 300) as u32
+        } else {
+            match r.below(4) {
+                0 => 0,
+                1 => r.range(1, 10) as u32,
+                2 => r.range(11, 60) as u32,
+                _ => r.range(33, 2000) as u32,
+            }
+        };
+        let _ = k;
+        items.push(RxItem { bytes, original, gap_bits, damage });
+    }
+    let p_max = match r.below(4) {
+        0 => (char_us / 3).max(1),
+        1 => char_us,
+        2 => char_us * r.range(2, 8),
+        _ => char_us * r.range(8, 60),
+    };
+    // isolated items need polls between them
+    let p_max = if with_damage { p_max.min((bit_us(baud, 400) / 4).max(1)) } else { p_max };
+    let _ = tier;
+    RxCfg {
+        baud,
+        items,
+        chunk: match r.below(4) {
+            0 => ChunkMode::BurstUs(r.range(1, 40) * char_us),
+            1 => ChunkMode::Whole,
+            _ => ChunkMode::Exact,
+        },
+        poll_seed: r.next_u64(),
+        p_min_us: if r.chance(1, 2) { p_max } else { (p_max / 4).max(1) },
+        p_max_us: p_max,
+        simulator_phy,
+        decoder_only: decoder,
+    }
+}
+
+/// A byte position, weighted towards the structural bytes of a frame.
+fn pick_pos(r: &mut Rng, b: &[u8]) -> usize {
+    let n = b.len();
+    match r.below(5) {
+        0 => 0,
+        1 => n - 1,
+        2 => n.saturating_sub(2),
+        3 => (r.below(7) as usize).min(n - 1),
+        _ => r.below(n as u64) as usize,
+    }
+}
+
+
+// ------------------------------------------------------------------------------------------
+// engine *scan*
+
+pub fn scan_world(r: &mut Rng, tier: Tier) -> (WorldCfg, OracleCfg, Vec<Fault>) {
+    let baud = pick_baud(r);
+    let slot_bits = pick_slot_bits(r, baud).min(600);
+    let slot_bits = slot_bits.max(min_slot_bits(baud));
+    let tslot_us = bit_us(baud, u64::from(slot_bits)).max(1);
+    let hsa = r.range(2, 12) as u8;
+    let ts = if r.chance(1, 4) { r.below(u64::from(hsa)) as u8 } else { r.below(u64::from(hsa)) as u8 };
+    let p_cap = max_poll_period_us(baud, slot_bits, 0);
+    let tsdr_cap = max_tsdr_cap(baud, slot_bits, 0);
+    let second = if hsa >= 3 && r.chance(1, 4) {
+        let mut a = r.below(u64::from(hsa)) as u8;
+        while a == ts {
+            a = r.below(u64::from(hsa)) as u8;
+        }
+        Some(a)
+    } else {
+        None
+    };
+    let mut used = vec![ts];
+    if let Some(a) = second {
+        used.push(a);
+    }
+    // one address sweep: 126 token visits
+    let visit_bits = 3 * u64::from(slot_bits) + 700 + if second.is_some() { 2 * u64::from(slot_bits) + 400 } else { 0 };
+    let sweep_us = bit_us(baud, 126 * visit_bits);
+    let n_sl = r.range(0, 8) as usize;
+    let t_changes_end = r.range(1, 3) * sweep_us;
+    let mut slaves = Vec::new();
+    for _ in 0..n_sl {
+        let mut a = match r.below(6) {
+            0 => 0,
+            1 => 125,
+            2 => (ts + 1) % 126,
+            3 => r.range(120, 125) as u8,
+            _ => r.below(126) as u8,
+        };
+        let mut guard = 0;
+        while used.contains(&a) && guard < 200 {
+            a = r.below(126) as u8;
+            guard += 1;
+        }
+        used.push(a);
+        let mut sc = responder(a, r, tsdr_cap);
+        sc.dp = r.chance(2, 3);
+        sc.ident = r.next_u64() as u16;
+        // appearance / disappearance history before the quiet point
+        let mut power = Vec::new();
+        let mut on = r.chance(2, 3);
+        power.push((0u64, on));
+        for _ in 0..r.below(4) {
+            on = !on;
+            power.push((r.range(1, t_changes_end.max(2) - 1), on));
+        }
+        power.sort();
+        sc.power = power;
+        slaves.push(sc);
+    }
+    let mut faults = Vec::new();
+    if r.chance(2, 3) {
+        let level = *r.pick(&[10u32, 40, 120]);
+        faults.push(Fault {
+            trig: Trigger::At(0),
+            delay_us: 0,
+            kind: FaultKind::Storm {
+                // C18 quantifies over lost replies (lost requests look the same to the scanner):
+                // no corruption, which could fabricate telegrams (a stray 0xE5 is a short
+                // confirmation, see DESIGN section 7, observation O2)
+                until_us: t_changes_end,
+                drop_pm: r.range(0, u64::from(level)) as u32,
+                flip_pm: 0,
+                rxdrop_pm: r.range(0, u64::from(level)) as u32,
+                trunc_pm: 0,
+                dup_pm: 0,
+                seed: r.next_u64(),
+            },
+        });
+    }
+    let mut apps = Vec::new();
+    match r.below(3) {
+        0 => apps.push(AppCfg::LiveList),
+        1 => apps.push(AppCfg::Scanner),
+        _ => {
+            apps.push(AppCfg::LiveList);
+            apps.push(AppCfg::Scanner);
+        }
+    }
+    if r.chance(1, 5) {
+        apps.push(AppCfg::Unit);
+    }
+    let mk = |r: &mut Rng, addr: u8, apps: Vec<AppCfg>| {
+        let p_max = r.range((p_cap / 3).max(1), p_cap);
+        StationCfg {
+            addr,
+            slot_bits,
+            hsa,
+            gap: r.range(1, 10) as u8,
+            ttr: *r.pick(&[256u32, 2000, 30_000, 600_000]),
+            retry: 1,
+            min_tsdr: 11,
+            watchdog_ms: None,
+            p_min_us: if r.chance(1, 2) { p_max } else { (p_max / 2).max(1) },
+            p_max_us: p_max,
+            clock_off_us: if r.chance(1, 2) { 0 } else { r.range_i(0, 1_000_000_000) },
+            skew_ppm: 0,
+            plan: vec![(0, PlanOp::Online)],
+            single_poll_api: apps.len() == 1 && r.chance(1, 2),
+            apps,
+            tx_done: TxDoneCfg::Exact,
+            rx_chunk_us: 0,
+            dup_poll_pm: if r.chance(1, 4) { r.range(1, 50) as u32 } else { 0 },
+            stale_rx: vec![],
+        }
+    };
+    let mut stations = vec![mk(r, ts, apps)];
+    if let Some(a) = second {
+        stations.push(mk(r, a, vec![]));
+    }
+    let _ = tier;
+    let end_us = t_changes_end + 6 * sweep_us + 100 * tslot_us;
+    let world = WorldCfg {
+        baud,
+        stations,
+        slaves,
+        adversary: None,
+        collision_garbles: false,
+        end_us,
+        max_polls: 3_000_000,
+        log_all: false,
+        fault_deadline_us: t_changes_end,
+    };
+    let oracle = OracleCfg {
+        quiet_from_us: t_changes_end,
+        bound_us: 0,
+        stable_us: 0,
+        bound_cycles: 0,
+        extra: vec![],
+    };
+    (world, oracle, faults)
+}
+
 pub fn generate(check: &str, tier: Tier, base_seed: u64, k: u64) -> Scenario {
     let seed = derive(base_seed, check, k);
     let mut r = Rng::derived(seed, "gen", 0);
+    if check == "C10" || check == "C16" {
+        let rx = rx_scenario(&mut r, tier, check == "C10");
+        return Scenario {
+            check: check.to_string(),
+            tier: tier.name().to_string(),
+            seed,
+            world: WorldCfg {
+                baud: rx.baud,
+                stations: vec![],
+                slaves: vec![],
+                adversary: None,
+                collision_garbles: true,
+                end_us: 0,
+                max_polls: 0,
+                log_all: false,
+                fault_deadline_us: 0,
+            },
+            faults: vec![],
+            oracle: OracleCfg::default(),
+            expect: None,
+            rx: Some(rx),
+        };
+    }
     let (world, oracle, faults) = match check {
         "C01" => {
             let o = RingOpts {
@@ -1149,6 +1489,7 @@ pub fn generate(check: &str, tier: Tier, base_seed: u64, k: u64) -> Scenario {
             let (w, o) = ring_world(&mut r, tier, &o);
             (w, o, Vec::<Fault>::new())
         }
+        "C18" => scan_world(&mut r, tier),
         "C05" => {
             match r.below(10) {
                 0..=4 => {
@@ -1392,5 +1733,6 @@ pub fn generate(check: &str, tier: Tier, base_seed: u64, k: u64) -> Scenario {
         faults,
         oracle,
         expect: None,
+        rx: None,
     }
 }
